@@ -16,7 +16,9 @@ import (
 
 // containerEngine: registration set x history x fault plan x schedule over the
 // real (instrumented) godi, judged by the ledger + reference model.
-type containerEngine struct{}
+type containerEngine struct {
+	override *FaultOverride // fault-position sweep: plan used by runTapes
+}
 
 func (e *containerEngine) Name() string { return "container-sim" }
 
@@ -161,7 +163,90 @@ func decodeCase(prop, tier string, idx int, tape *Tape) *Case {
 
 func (e *containerEngine) Run(prop, tier string, idx int, tape *Tape) *RunOut {
 	c := decodeCase(prop, tier, idx, tape)
-	return e.exec(c, tape)
+	out := e.exec(c, tape)
+	if sweepProp(prop) && idx%sweepEvery(tier) == 0 && len(c.Faults) == 0 && !hasOwn(out, prop) {
+		e.sweep(prop, tier, idx, tape.Snapshot(), out)
+	}
+	return out
+}
+
+func sweepProp(prop string) bool {
+	switch prop {
+	case "C10", "C12", "C14", "C15":
+		return true
+	}
+	return false
+}
+
+func sweepEvery(tier string) int {
+	if tier == "thorough" {
+		return 4
+	}
+	return 10
+}
+
+func hasOwn(out *RunOut, prop string) bool {
+	for _, v := range out.Violations {
+		if v.Prop == prop {
+			return true
+		}
+	}
+	return false
+}
+
+// sweep: fault-position enumeration. The case just ran fault-free; re-execute
+// the same configuration / programs / schedule tape once per position at which
+// user code can be made to fail - every constructor invocation (kinds rotated:
+// error, panic, nil) and every disposable instance's Close - failing exactly
+// that position.
+func (e *containerEngine) sweep(prop, tier string, idx int, tapes [nStreams][]int32, out *RunOut) {
+	type pos struct{ kind, reg, n int }
+	var positions []pos
+	seen := map[pos]bool{}
+	k := 0
+	for _, p := range out.positions {
+		kind := FCtorErr + k%3
+		if p.close {
+			kind = FCloseErr
+		} else {
+			k++
+		}
+		if prop == "C12" && !p.close {
+			continue
+		}
+		if prop != "C12" && p.close {
+			continue
+		}
+		q := pos{kind, p.reg, p.n}
+		if !seen[q] {
+			seen[q] = true
+			positions = append(positions, q)
+		}
+	}
+	if len(positions) > 24 {
+		positions = positions[:24]
+	}
+	for i, p := range positions {
+		tape := ReplayTape(tapes)
+		tape.Override = &FaultOverride{Kind: p.kind, Reg: p.reg, N: p.n, PanicKind: i % 5}
+		c := decodeCase(prop, tier, idx, tape)
+		sub := e.exec(c, tape)
+		out.Reach["sweep.positions"]++
+		out.Steps += sub.Steps
+		for kk, vv := range sub.Faults {
+			out.Faults[kk] += vv
+			out.Reach["sweep.fired."+kk] += vv
+		}
+		if hasOwn(sub, prop) {
+			for _, v := range sub.Violations {
+				if v.Prop == prop {
+					out.Violations = append(out.Violations, v)
+				}
+			}
+			out.override = tape.Override
+			return
+		}
+	}
 }
 
 func (e *containerEngine) exec(c *Case, tape *Tape) *RunOut {
@@ -196,6 +281,16 @@ func (e *containerEngine) exec(c *Case, tape *Tape) *RunOut {
 	for _, f := range c.Faults {
 		if f.Fired > 0 {
 			out.Faults[faultNames[f.Kind]] += f.Fired
+		}
+	}
+	for _, inv := range h.invs {
+		out.positions = append(out.positions, faultPos{reg: inv.Reg, n: inv.N})
+	}
+	dn := map[int]int{}
+	for _, in := range h.insts {
+		if in.Inv >= 0 && h.model.regs[in.Reg].Outs[in.OutIdx].Concrete.IsDisp() {
+			out.positions = append(out.positions, faultPos{reg: in.Reg, n: dn[in.Reg], close: true})
+			dn[in.Reg]++
 		}
 	}
 	e.reach(h, a, out)
@@ -322,12 +417,17 @@ func mapToTapes(m map[string][]int32) [nStreams][]int32 {
 
 func (e *containerEngine) runTapes(prop, tier string, idx int, tapes [nStreams][]int32) (*RunOut, *Case) {
 	tape := ReplayTape(tapes)
+	tape.Override = e.override
 	c := decodeCase(prop, tier, idx, tape)
 	out := e.exec(c, tape)
 	return out, c
 }
 
 func (e *containerEngine) Replay(rf *ReplayFile) *RunOut {
+	e.override = nil
+	if rf.Override != nil {
+		e.override = rf.Override
+	}
 	out, _ := e.runTapes(rf.Property, rf.Tier, rf.Run, mapToTapes(rf.Tapes))
 	return out
 }
@@ -343,6 +443,12 @@ func hasViolation(out *RunOut, v Violation) *Violation {
 }
 
 func (e *containerEngine) Minimise(prop, tier string, idx int, tapes [nStreams][]int32, v Violation) *ReplayFile {
+	rf := e.minimise(prop, tier, idx, tapes, v)
+	rf.Override = e.override
+	return rf
+}
+
+func (e *containerEngine) minimise(prop, tier string, idx int, tapes [nStreams][]int32, v Violation) *ReplayFile {
 	deadline := time.Now().Add(45 * time.Second)
 	try := func(t [nStreams][]int32) bool {
 		defer func() {
@@ -358,7 +464,7 @@ func (e *containerEngine) Minimise(prop, tier string, idx int, tapes [nStreams][
 		// the race detector reports a given race once per process: every
 		// attempt runs in a fresh process
 		try = func(t [nStreams][]int32) bool {
-			return subprocessTry(&ReplayFile{Property: prop, Rule: v.Rule, Shape: v.Shape, Tier: tier, Run: idx, Tapes: tapesToMap(t)})
+			return subprocessTry(&ReplayFile{Property: prop, Rule: v.Rule, Shape: v.Shape, Tier: tier, Run: idx, Tapes: tapesToMap(t), Override: e.override})
 		}
 		cur := tapes
 		minimised := false
